@@ -114,7 +114,8 @@ def judge_pl(ctx, monitor, out, spot, unit, cost, payoff, first, sig, extra=None
     worst = None
     for j, r in enumerate(rows):
         val, mag, cmag = exact_pl(sp[j], un[j], cost_fr, po[j] if po is not None else None, first)
-        bound = 4 * (3 * H * T + 4) * e * float(mag + cmag) + 2 * e32 * float(cmag) + 1e-300
+        # (+ gradual underflow: every product / sum may lose up to one smallest subnormal of the dtype)
+        bound = 4 * (3 * H * T + 4) * e * float(mag + cmag) + 2 * e32 * float(cmag) + 4 * (3 * H * T + 4) * float(torch.finfo(dtype).tiny) * e
         got = outv[j]
         err = abs(Fraction(got) - val) if np.isfinite(got) else None
         if err is None or float(err) > bound:
